@@ -91,7 +91,7 @@ pub fn run(ctx: &Ctx) -> usize {
   sink.segment();
   sink.put(Ev::new("begin").i("s", 1).done());
   let mut rng = ctx.rng(1601);
-  let n = if ctx.quick() { 1500 } else { 60000 };
+  let n = if ctx.quick() { 9000 } else { 60000 };
   for k in 0..n {
     // births 0002..9990: random, within seconds of a Jie, on month / year ends, around October 1582
     let (j, s) = match k % 6 {
